@@ -49,6 +49,9 @@ func genC11(rt *rapid.T) core.Scenario {
 	if sc.Store.HideStreamer && sc.Store.Kind != "ds" {
 		sc.Store.ShortReads = rapid.IntRange(0, 2).Draw(rt, "shortReads") == 2
 	}
+	if sc.Store.Kind != "mem" {
+		sc.Store.Instr = rapid.IntRange(0, 3).Draw(rt, "instr") == 3
+	}
 	sc.BatchSize = rapid.SampledFrom([]int{0, 1, 2, 3, 5, 100}).Draw(rt, "batchSize")
 	sc.L = rapid.IntRange(0, 40).Draw(rt, "L")
 	if rapid.IntRange(0, 2).Draw(rt, "small") > 0 {
